@@ -9,6 +9,7 @@ PID = "C20"
 KERNELS = ['K_scale']   # translated from /repo on every run, tied to the model by coq/Gen/<name>_eq.v
 RUNNER = "impl_m6.py"
 N = {"quick": 3000, "thorough": 100000}
+VM_CROSSCHECK = True
 LEVEL_RULE = ("one helper per case: scale (old/new ranges incl. reversed new ranges, |curve shape| <= 20, three ordered values incl. "
               "both bounds), scale_sequence_to_sum (fractions, zero sums, negative entries), find_closest_index/item (unsorted data "
               "with ties and duplicates, key variant), nested get/set/delete (depth <= 4, bad paths), cyclic_permutations, "
